@@ -68,6 +68,19 @@ def run(ctx):
             ctx.violation(f"client-reader:{c['client']}:{'panic' if c['panics'] else c['cls']}",
                           f"{c['client']} client, a stray {c['flavour']} frame with a {c['query_len']}-byte query ({c['query']}) arrived while a call was in flight: "
                           f"{c['panics']} panic(s) ({c['panic_msg']}), the call then returned {c['cls']} ({c['msg']})", c)
+    # unallocatable declared frames on the wire, at each TCP server with and without a read timeout; in a process of its
+    # own, because an abort of the code under test would end it
+    hg = ctx.work / "huge.json"
+    prog = ctx.work / "huge.progress"
+    p = ctx.vh("srv-c02-huge", "--out", hg, "--progress", prog, timeout=600, ok_codes=(0, 1, 101, 134, -6, -11))
+    if p.returncode != 0 or not hg.exists():
+        at = prog.read_text() if prog.exists() else "?"
+        ctx.violation("wire-huge:process-died", f"the server process died (exit status {p.returncode}) while handling a header that declares an unallocatable frame: {at}; output tail: {(p.stdout or '')[-300:]}", {"at": at, "rc": p.returncode})
+    else:
+        for c in json.loads(hg.read_text())["cases"]:
+            ctx.coverage["evaluations"] += 1
+            if c["panics"] or not c["alive"]:
+                ctx.violation(f"wire-huge:{c['server']}:{'panic' if c['panics'] else 'dead'}", f"{c['server']}: a header declaring a body of {c['body_length']} bytes: {c['panics']} panic(s), server still serving afterwards: {c['alive']}", c)
     ctx.coverage["exhaustive"] = True
     ctx.coverage["explanation"] = "exhaustive over the boundary-class product of MC_RepeWire (LenClasses x LenClasses x Totals x BufLens x magic); random inputs are samples"
     ctx.assume("error KIND is not judged (the property only demands an error); disagreements about the reason are not violations",
